@@ -519,9 +519,30 @@ fn concat_parts(parts: Vec<Expr>, attr_ptr: &MySyntaxNodePtr) -> Expr {
     acc
 }
 
+/// The builtin that renders a scalar. Only `int32` has a `to_string` method of its own;
+/// for every other scalar type the generated code calls the builtin directly.
+fn scalar_to_string_builtin(ty: &ast::TypeExpr) -> Option<&'static str> {
+    match ty {
+        ast::TypeExpr::TUnit => Some("unit_to_string"),
+        ast::TypeExpr::TBool => Some("bool_to_string"),
+        ast::TypeExpr::TInt8 => Some("int8_to_string"),
+        ast::TypeExpr::TInt16 => Some("int16_to_string"),
+        ast::TypeExpr::TInt64 => Some("int64_to_string"),
+        ast::TypeExpr::TUint8 => Some("uint8_to_string"),
+        ast::TypeExpr::TUint16 => Some("uint16_to_string"),
+        ast::TypeExpr::TUint32 => Some("uint32_to_string"),
+        ast::TypeExpr::TUint64 => Some("uint64_to_string"),
+        ast::TypeExpr::TFloat32 => Some("float32_to_string"),
+        ast::TypeExpr::TFloat64 => Some("float64_to_string"),
+        _ => None,
+    }
+}
+
 fn call_to_string(value: Expr, ty: Option<&ast::TypeExpr>, attr_ptr: &MySyntaxNodePtr) -> Expr {
     if matches!(ty, Some(ast::TypeExpr::TString)) {
         value
+    } else if let Some(builtin) = ty.and_then(scalar_to_string_builtin) {
+        call_function(builtin, vec![value], attr_ptr)
     } else {
         Expr::ECall {
             func: Box::new(Expr::EField {
@@ -545,23 +566,28 @@ fn call_to_json(value: Expr, ty: Option<&ast::TypeExpr>, attr_ptr: &MySyntaxNode
         // Booleans are serialized as true/false (lowercase)
         Some(ast::TypeExpr::TBool) => call_function("bool_to_json", vec![value], attr_ptr),
         // Numbers can be serialized directly via to_string
-        Some(ast::TypeExpr::TInt8)
-        | Some(ast::TypeExpr::TInt16)
-        | Some(ast::TypeExpr::TInt32)
-        | Some(ast::TypeExpr::TInt64)
-        | Some(ast::TypeExpr::TUint8)
-        | Some(ast::TypeExpr::TUint16)
-        | Some(ast::TypeExpr::TUint32)
-        | Some(ast::TypeExpr::TUint64)
-        | Some(ast::TypeExpr::TFloat32)
-        | Some(ast::TypeExpr::TFloat64) => Expr::ECall {
-            func: Box::new(Expr::EField {
-                expr: Box::new(value),
-                field: AstIdent::new(TO_STRING_FN),
+        Some(
+            number @ (ast::TypeExpr::TInt8
+            | ast::TypeExpr::TInt16
+            | ast::TypeExpr::TInt32
+            | ast::TypeExpr::TInt64
+            | ast::TypeExpr::TUint8
+            | ast::TypeExpr::TUint16
+            | ast::TypeExpr::TUint32
+            | ast::TypeExpr::TUint64
+            | ast::TypeExpr::TFloat32
+            | ast::TypeExpr::TFloat64),
+        ) => match scalar_to_string_builtin(number) {
+            Some(builtin) => call_function(builtin, vec![value], attr_ptr),
+            None => Expr::ECall {
+                func: Box::new(Expr::EField {
+                    expr: Box::new(value),
+                    field: AstIdent::new(TO_STRING_FN),
+                    astptr: *attr_ptr,
+                }),
+                args: Vec::new(),
                 astptr: *attr_ptr,
-            }),
-            args: Vec::new(),
-            astptr: *attr_ptr,
+            },
         },
         // Unit serializes as null
         Some(ast::TypeExpr::TUnit) => Expr::EString {
